@@ -494,9 +494,6 @@ func randCall(r *rng.R, w *world, nextV *int64) (Evt, bool) {
 	}
 	for try := 0; try < 8; try++ {
 		c, k := rng.Pick(r, lc), r.Intn(5)
-		if _, bad := w.dirty[[2]int{c, k}]; bad {
-			continue // pattern R1: a failing creator of this key lost its entry to a cleanup
-		}
 		// at most one waiter behind a creator that is going to fail (which waiter becomes the
 		// next creator is decided by the Go scheduler, not by the harness)
 		if cr, ok := w.latest[[2]int{c, k}]; ok && w.thr[cr].status == 10 && w.thr[cr].kind != kVal {
@@ -567,9 +564,7 @@ func genRandom(r *rng.R, cw *casefile.Writer, conc bool) {
 		case x < 90:
 			w.do(Evt{Op: "cleanup"})
 		case x < 95:
-			if w.gcSafe() {
-				w.do(Evt{Op: "gcgens"})
-			}
+			w.do(Evt{Op: "gcgens"}) // also while creators are parked on an older generation (pattern R2, repaired by b9905fa)
 		default:
 			w.do(Evt{Op: "relbuckets"})
 		}
